@@ -29,6 +29,15 @@ func (fr *Frame) noteDebugRef(d *ssa.DebugRef) {
 	fr.lastDef[obj.Name()] = localDef{d.X, d.IsAddr}
 }
 
+func (fr *Frame) isParamName(name string) bool {
+	for _, p := range fr.fn.Params {
+		if p.Name() == name {
+			return true
+		}
+	}
+	return false
+}
+
 func (fr *Frame) hasLocal(name string) bool {
 	for _, p := range fr.fn.Params {
 		if p.Name() == name {
@@ -72,6 +81,19 @@ func (fr *Frame) resolveLocal(name string, st *State) (Val, bool) {
 				}
 			}
 		}
+	}
+	// address-taken / captured variables live in an alloc named after them: always current
+	var best *Val
+	for v, val := range fr.env {
+		if a, ok := v.(*ssa.Alloc); ok && a.Comment == name && val.Loc != nil {
+			if best == nil || val.Loc.Cell.id > best.Loc.Cell.id {
+				vv := val
+				best = &vv
+			}
+		}
+	}
+	if best != nil && !(fr.postMode && fr.isParamName(name)) {
+		return readPtr(*best), true
 	}
 	if !fr.postMode {
 		if d, ok := fr.lastDef[name]; ok {
@@ -338,6 +360,19 @@ func (w *World) VerifyLemma(l *spec.Lemma) *Unit {
 		}
 		env.names[v.Name] = Val{T: t, Sort: sortIfSpec(t, srt), Term: vc.declareConst("lv_"+v.Name, srt)}
 	}
+	for _, un := range l.Uses {
+		var used *spec.Lemma
+		for _, o := range w.Lemmas {
+			if o.Name == un {
+				used = o
+			}
+		}
+		if used == nil {
+			vc.outside("lemma %s uses unknown lemma %s", l.Name, un)
+			continue
+		}
+		vc.fact(w.lemmaStatement(vc, used))
+	}
 	for _, h := range l.Hyps {
 		vc.fact(env.compileBool(h.Expr))
 	}
@@ -417,3 +452,32 @@ func (w *World) UnitKeys() []string {
 
 // Finish completes a VC after generation (axioms).
 func (w *World) Finish(vc *VC) { w.addAxioms(vc) }
+
+
+// lemmaStatement returns the universally quantified statement of a lemma.
+func (w *World) lemmaStatement(vc *VC, l *spec.Lemma) string {
+	env := &SpecEnv{vc: vc, st: NewState(), names: map[string]Val{}, bound: map[string]Val{}}
+	env.old = env.st
+	if p := w.PkgByPath[l.Pkg]; p != nil {
+		env.pkg = p.Types
+	}
+	conj := func(cs []*spec.Clause) spec.Expr {
+		var e spec.Expr = &spec.BoolLit{Val: true}
+		for i, c := range cs {
+			if i == 0 {
+				e = c.Expr
+			} else {
+				e = &spec.Binary{Op: "&&", L: e, R: c.Expr}
+			}
+		}
+		return e
+	}
+	var body spec.Expr = conj(l.Concl)
+	if len(l.Hyps) > 0 {
+		body = &spec.Binary{Op: "==>", L: conj(l.Hyps), R: body}
+	}
+	if len(l.Vars) == 0 {
+		return env.compileBool(body)
+	}
+	return env.compileBool(&spec.Quant{Forall: true, Vars: l.Vars, Body: body})
+}
